@@ -39,6 +39,9 @@ def range (min max step : Int) : Option (List Int) :=
   else if min < max then none
   else some []
 
+/-- `Range(max)` = `Range(0, max, 1)`. -/
+def range1 (max : Int) : Option (List Int) := range 0 max 1
+
 /-! ### Linear_Space -/
 
 def linearSpace (min max : Rat) (steps : Nat) : List Rat :=
@@ -46,6 +49,16 @@ def linearSpace (min max : Rat) (steps : Nat) : List Rat :=
   else
     let step := (max - min) / ((steps : Rat) - 1)
     (List.range steps).map (fun (i : Nat) => min + (i : Rat) * step)
+
+/-! ### Log_Space — `exp` and `log` are parameters (libm is outside the model); the driver does
+    not evaluate this definition, it exists for theorem `logSpace_spec`. -/
+
+def logSpace (exp log : Rat → Rat) (min max : Rat) (steps : Nat) : List Rat :=
+  if steps < 2 ∨ min = max then [min]
+  else
+    let logmin := log min
+    let dlog := log (max / min) / ((steps : Rat) - 1)
+    (List.range steps).map (fun (i : Nat) => exp (logmin + (i : Rat) * dlog))
 
 /-! ### Locate_Closest_Location -/
 
